@@ -353,6 +353,98 @@ Section BA.
   Qed.
 End BA.
 
+(** ---- clause 5: errors name the failing shard ---- *)
+Section NAMED.
+  Variable digests : sx.
+  Let hd (i : nat) : N := sx_N (sx_nth (sx_nth digests i) 0).
+  Let dg_of (i : nat) : dg := (hd i, i).
+
+  Lemma fm_none_has_faulted sel nb faults ds :
+    snd (find_missing sel nb (fm_oracle faults) ds) = None ->
+    filter (fun '(i, _) => nth i faults false) (fst (find_missing sel nb (fm_oracle faults) ds)) <> [].
+  Proof.
+    unfold find_missing. cbn [fst snd]. set (asked := filter _ _).
+    destruct (forallb _ _) eqn:Hall; [discriminate|]. intros _.
+    clear -Hall. induction asked as [|[i p] t IH]; [discriminate|].
+    cbn [map forallb filter] in *. unfold fm_oracle at 1 in Hall.
+    destruct (nth i faults false); [discriminate|]. cbn [andb] in Hall. apply IH. exact Hall.
+  Qed.
+
+  Lemma named_model sel nb op : err_named_ok op (run12_op sel nb digests op) = true.
+  Proof.
+    destruct (Z.eq_dec (sx_Z (sx_nth op 0)) 3) as [E|E].
+    - rewrite (run12_op_fm digests _ _ _ E). cbv zeta.
+      set (faults := map sx_bool (sx_list (sx_nth op 2))).
+      set (fm := find_missing sel nb (fm_oracle faults) _).
+      unfold err_named_ok. rewrite E. change (Z.eqb 3 3) with true. cbv iota. fold faults.
+      destruct (snd fm) as [r|] eqn:Hres; [reflexivity|].
+      set (named := map fst (filter (fun '(i, _) => nth i faults false) (fst fm))).
+      change (sx_nth (L [L (map (fun '(i, p) => L [of_nat i; of_nats p]) (fst fm)); L [A 14; of_nats named]]) 1)
+        with (L [A 14; of_nats named]).
+      change (sx_Z (sx_nth (L [A 14; of_nats named]) 0)) with 14.
+      change (Z.eqb 14 0) with false. cbv iota.
+      change (sx_list (sx_nth (L [A 14; of_nats named]) 1)) with (map of_nat named).
+      pose proof (fm_none_has_faulted _ _ _ _ Hres) as Hne. fold fm in Hne.
+      apply andb_true_iff. split.
+      + unfold named. destruct (filter _ (fst fm)); [contradiction|reflexivity].
+      + apply forallb_forall. intros n Hn. apply in_map_iff in Hn. destruct Hn as (x & <- & Hx).
+        rewrite sx_nat_of_nat. unfold named in Hx. apply in_map_iff in Hx. destruct Hx as ([i q] & <- & Hiq).
+        apply filter_In in Hiq. exact (proj2 Hiq).
+    - rewrite (run12_op_other digests _ _ _ E). cbv zeta. unfold err_named_ok.
+      destruct (Z.eqb (sx_Z (sx_nth op 0)) 3) eqn:E3; [apply Z.eqb_eq in E3; contradiction|].
+      destruct (sx_bool _); [|reflexivity].
+      match goal with |- context [L [?a; ?b; A 14; L [?a]]] =>
+        change (sx_Z (sx_nth (L [a; b; A 14; L [a]]) 2)) with 14;
+        change (sx_nth (L [a; b; A 14; L [a]]) 3) with (L [a]);
+        change (sx_nth (L [a; b; A 14; L [a]]) 0) with a end.
+      change (Z.eqb 14 0) with false. cbv iota. apply sx_eqb_refl.
+  Qed.
+
+  Lemma agree12_op_cases2 m o : agree12_op m o = true ->
+    m = o \/ exists failing named,
+               sx_nth m 1 = L [A 14; L failing] /\ sx_nth o 1 = L [A 14; L [named]] /\ In named failing.
+  Proof.
+    unfold agree12_op. intros H.
+    remember (sx_nth m 1) as a eqn:Ea. remember (sx_nth o 1) as b eqn:Eb.
+    repeat match type of H with
+           | context [match ?x with _ => _ end] => destruct x
+           end;
+      first [ left; apply sx_eqb_eq; exact H
+            | right; eexists _, _; split; [reflexivity|split; [reflexivity|]];
+              apply andb_true_iff in H; destruct H as [_ H]; apply existsb_exists in H;
+              destruct H as (f & Hf & Heq); apply sx_eqb_eq in Heq; subst f; exact Hf ].
+  Qed.
+
+  Lemma named_good sel nb op o :
+    agree12_op (run12_op sel nb digests op) o = true -> err_named_ok op o = true.
+  Proof.
+    intros Ha. destruct (agree12_op_cases2 _ _ Ha) as [<-|(failing & named & Em & Eo & Hin)]; [apply named_model|].
+    pose proof (named_model sel nb op) as Hm.
+    destruct (Z.eq_dec (sx_Z (sx_nth op 0)) 3) as [E|E].
+    - unfold err_named_ok in *. rewrite E in *. change (Z.eqb 3 3) with true in *. cbv iota in *.
+      rewrite Em in Hm. rewrite Eo.
+      change (sx_Z (sx_nth (L [A 14; L failing]) 0)) with 14 in Hm.
+      change (sx_Z (sx_nth (L [A 14; L [named]]) 0)) with 14.
+      change (Z.eqb 14 0) with false in *. cbv iota in *.
+      change (sx_list (sx_nth (L [A 14; L failing]) 1)) with failing in Hm.
+      change (sx_list (sx_nth (L [A 14; L [named]]) 1)) with [named].
+      apply andb_true_iff in Hm. destruct Hm as [_ Hall].
+      cbn [negb forallb andb]. rewrite andb_true_r.
+      rewrite forallb_forall in Hall. apply Hall. exact Hin.
+    - rewrite (run12_op_other digests _ _ _ E) in Em. cbv zeta in Em. discriminate Em.
+  Qed.
+
+  Lemma named_all sel nb ops os :
+    all2 agree12_op (map (run12_op sel nb digests) ops) os = true ->
+    forall op o, In (op, o) (combine ops os) -> err_named_ok op o = true.
+  Proof.
+    revert os. induction ops as [|a ops IH]; intros [|b os] H op o Hin; cbn in *; try contradiction; try discriminate.
+    apply andb_true_iff in H. destruct H as [H1 H2]. destruct Hin as [Hin|Hin].
+    - inversion Hin; subst. apply (named_good sel nb op o H1).
+    - apply (IH os H2 op o Hin).
+  Qed.
+End NAMED.
+
 (** the judge's notion of agreement in blob-access cases (literally the [ag]
     of [judge12], see [judge12_ba_fields]) *)
 Definition agree12_ba (inp obs : sx) : bool :=
@@ -396,7 +488,13 @@ Proof.
       apply (proj1 (Hgood op o Hp)). exact Hin. }
   assert (Hall : forallb (fun '(op, o) => fm_union_ok op o) (combine ops (sx_list obs)) = true).
   { apply forallb_forall. intros [op o] Hp. apply (proj2 (Hgood op o Hp)). }
-  rewrite Hall. reflexivity.
+  rewrite Hall.
+  assert (Hnamed : forallb (fun '(op, o) => err_named_ok op o) (combine ops (sx_list obs)) = true).
+  { apply forallb_forall. intros [op o] Hp.
+    destruct (is_reject (L (map (run12_op sel (length cfg) digests) ops))) eqn:Hr.
+    - apply sx_eqb_eq in Hag. subst obs. rewrite Hr in Hrej. discriminate.
+    - cbn [sx_list] in Hag. apply (named_all digests sel (length cfg) ops (sx_list obs) Hag op o Hp). }
+  rewrite Hnamed. reflexivity.
 Qed.
 
 Theorem mon12_ba_silent : forall inp, mon12_ba inp (run12_ba inp) = [].
